@@ -68,6 +68,8 @@
 //! assert_eq!(unsafe { BitVec::from_raw_parts(ones, 1) }.count_ones(), 1);
 //! ```
 
+#![allow(unexpected_cfgs)]
+
 use common_traits::{IntoAtomic, SelectInWord};
 #[allow(unused_imports)] // this is in the std prelude but not in no_std!
 use core::borrow::BorrowMut;
@@ -776,6 +778,8 @@ impl<B: AsRef<[AtomicUsize]>> AtomicBitVec<B> {
     unsafe fn get_unchecked(&self, index: usize, ordering: Ordering) -> bool {
         let word_index = index / BITS;
         let bits = self.bits.as_ref();
+        #[cfg(sux_verif)]
+        ::verif_rt::sched_point(1);
         let word = bits.get_unchecked(word_index).load(ordering);
         (word >> (index % BITS)) & 1 != 0
     }
@@ -785,6 +789,8 @@ impl<B: AsRef<[AtomicUsize]>> AtomicBitVec<B> {
         let bit_index = index % BITS;
         let bits = self.bits.as_ref();
 
+        #[cfg(sux_verif)]
+        ::verif_rt::sched_point(2);
         // For constant values, this should be inlined with no test.
         if value {
             bits.get_unchecked(word_index)
@@ -801,6 +807,8 @@ impl<B: AsRef<[AtomicUsize]>> AtomicBitVec<B> {
         let bit_index = index % BITS;
         let bits = self.bits.as_ref();
 
+        #[cfg(sux_verif)]
+        ::verif_rt::sched_point(3);
         let old_word = if value {
             bits.get_unchecked(word_index)
                 .fetch_or(1 << bit_index, ordering)
